@@ -340,7 +340,7 @@ def observe_impl(d, full=False):
     from cooler import fileops
     obs = {}
     for f in G.FILES:
-        fn = os.path.join(d, f + ".cool")
+        fn = G.faddr(d, f)
         dump = G.canon_dump(light_dump(G.raw_dump(d, f, 3)))
         o, v = G.guarded(shallow_stack, fileops.list_coolers, fn)
         listing = [o, v if o == "Ok" else []]
@@ -349,7 +349,32 @@ def observe_impl(d, full=False):
             o2, v2 = G.guarded(fileops.is_cooler, G.uri(d, f, q))
             ic[q] = (bool(v2) if o2 == "Ok" else o2)
         obs[f] = {"dump": dump, "listing": listing, "is_cooler": ic}
+        lay = G._LAYOUTS.get(d)
+        if lay and lay.get("cli_obs") and os.path.exists(G.fpath(d, f)):
+            obs[f]["cli"] = cli_listing(fn, listing)
     return obs
+
+
+def cli_listing(fn, listing):
+    """`cooler ls` and `cooler tree` on the (relative) file name must agree with list_coolers"""
+    from click.testing import CliRunner
+    from cooler.cli import cli
+    out = []
+
+    def run_cli(args):
+        r = CliRunner().invoke(cli, args)
+        return r.exit_code, r.output
+    o, v = G.guarded(shallow_stack, run_cli, ["ls", fn])
+    if listing[0] == "Ok":
+        exp = [fn + "::" + p_ for p_ in listing[1]]
+        if o != "Ok" or v[0] != 0 or v[1].split("\n")[:-1] != exp:
+            out.append({"rule": "L `cooler ls` differs from list_coolers", "got": (v[1][:300] if o == "Ok" else o), "expected": exp})
+        o2, v2 = G.guarded(shallow_stack, run_cli, ["tree", fn])
+        if o2 != "Ok" or v2[0] != 0:
+            out.append({"rule": "L `cooler tree` fails on a file that list_coolers can traverse", "got": (v2[0] if o2 == "Ok" else o2)})
+    elif o == "Ok" and v[0] == 0:
+        out.append({"rule": "L `cooler ls` succeeds where list_coolers raises", "listing": listing[0]})
+    return out
 
 
 def shallow_stack(fn, *a):
@@ -422,9 +447,51 @@ def gen_op(rng, S, step, stream):
     dp = rng.choice(PATHS)
     op = {"op": kind, "sf": sf, "sp": sp, "df": df, "dp": dp, "ow": rng.random() < 0.1,
           "s1": rng.random() < 0.5, "s2": rng.random() < 0.5}
+    if rng.random() < 0.3:      # address the two files differently within one call
+        op["a1"], op["a2"] = rng.choice(["abs", "rel", "dot"]), rng.choice(["abs", "rel", "dot"])
+        if sf == df:
+            # _copy decides "same file" by comparing the two path STRINGS: one file under two spellings is handled as
+            # two files (reported to the lead, input in the report); until that is decided one spelling per call
+            op["a2"] = op["a1"]
     if rng.random() < 0.12:
         op["via"] = "cli"
     return op
+
+
+DECOY_STAMP = 17
+# A cross-file `ln -s` given a RELATIVE source path stores that path as written; HDF5 resolves it relative to the
+# directory of the file holding the link first, the working directory only as a fallback.  A decoy sitting exactly
+# where that first resolution lands makes the link read the decoy on the UNCHANGED tree (reported to the lead as a
+# defect of /repo, input in the report); until that is decided such a decoy is not placed.
+DECOY_WHERE_CWD_RELATIVE_LINK_LANDS = False
+
+
+def make_layout(d, spec):
+    """directories, working directory and decoys of one history"""
+    kind = spec["kind"]
+    if kind == "siblings":
+        A, B, cwd = os.path.join(d, "da", "A.cool"), os.path.join(d, "db", "B.cool"), os.path.join(d, "work")
+    elif kind == "nested":
+        A, B, cwd = os.path.join(d, "A.cool"), os.path.join(d, "sub", "deep", "B.cool"), os.path.join(d, "other")
+    elif kind == "up":
+        A, B, cwd = os.path.join(d, "x", "y", "A.cool"), os.path.join(d, "x", "B.cool"), os.path.join(d, "x", "y", "z")
+    else:
+        A, B, cwd = os.path.join(d, "A.cool"), os.path.join(d, "B.cool"), os.path.join(d, "cw")
+    for p_ in (os.path.dirname(A), os.path.dirname(B), cwd):
+        os.makedirs(p_, exist_ok=True)
+    lay = {"A": A, "B": B, "cwd": cwd, "addr": spec["addr"], "kind": kind, "cli_obs": bool(spec.get("cli_obs"))}
+    if spec.get("decoys"):
+        import cooler
+        cands = {os.path.join(os.path.dirname(B), "A.cool"), os.path.join(os.path.dirname(A), "B.cool"),
+                 os.path.join(cwd, "A.cool"), os.path.join(cwd, "B.cool")} - {A, B}
+        if not DECOY_WHERE_CWD_RELATIVE_LINK_LANDS:
+            for src, dst in ((A, B), (B, A)):
+                cands.discard(os.path.realpath(os.path.join(os.path.dirname(dst), os.path.relpath(src, cwd))))
+        for c_ in sorted(cands):
+            for grp in ("/", "/c2", "/c10"):
+                cooler.create_cooler(c_ + "::" + grp, G.bins_df(), G.pixels_df(DECOY_STAMP), mode="a")
+        lay["decoys"] = sorted(cands)
+    return lay
 
 
 _FROZEN = False
@@ -444,6 +511,23 @@ def _freeze_once():
         _FROZEN = True
 
 
+def decoys_untouched(lay):
+    """the decoy files of the same base names elsewhere must not have been read into or written to"""
+    import h5py
+    bad = []
+    for c_ in lay["decoys"]:
+        try:
+            with h5py.File(c_, "r") as h:
+                ok = sorted(h.keys()) == ["bins", "c10", "c2", "chroms", "indexes", "pixels"] and \
+                    [int(x) for x in h["pixels/count"][:]] == [r[2] for r in G.pixels_rows(DECOY_STAMP)] and \
+                    sorted(h["c2"].keys()) == ["bins", "chroms", "indexes", "pixels"]
+        except Exception as e:  # noqa: BLE001
+            ok = False
+        if not ok:
+            bad.append(({"rule": "L a decoy file of the same base name was modified", "decoy": os.path.relpath(c_, lay["cwd"])}, None))
+    return bad
+
+
 def run_tail(d, tail):
     """after the history, in the same process and on the same paths: both files are deleted (every listing and
     predicate must see that), then one collection is created again at a path of file A and judged by the ordinary
@@ -452,12 +536,12 @@ def run_tail(d, tail):
     fails = []
     for f in G.FILES:
         try:
-            os.remove(os.path.join(d, f + ".cool"))
+            os.remove(G.fpath(d, f))
         except OSError:
             pass
 
     def preds(f):
-        fn = os.path.join(d, f + ".cool")
+        fn = G.faddr(d, f)
         out = {}
         for name, fun in (("is_scool_file", fileops.is_scool_file), ("is_multires_file", fileops.is_multires_file)):
             o, v = G.guarded(fun, fn)
@@ -493,8 +577,14 @@ def run_history(task):
     _freeze_once()
     base, hid, seed, ops_in, nops, stream = task[:6]
     tail = task[6] if len(task) > 6 else None
+    layspec = task[7] if len(task) > 7 else None
     d = os.path.join(base, f"h{hid}")
     os.makedirs(d, exist_ok=True)
+    old_cwd = os.getcwd()
+    if layspec:
+        lay = make_layout(d, layspec)
+        G.set_layout(d, lay)
+        os.chdir(lay["cwd"])
     rng = random.Random(seed)
     ops, steps, fails = [], [], []
     try:
@@ -510,12 +600,21 @@ def run_history(task):
             for det, sig in fs:
                 det["step"] = i
                 fails.append((det, sig))
+            for f in G.FILES:
+                for det in obs[f].pop("cli", []):
+                    det["step"] = i
+                    det["file"] = f
+                    fails.append((det, None))
             ops.append(op)
             steps.append({"outcome": outcome, "obs": obs})
             S0 = S1
         final = {f: G.canon_dump(G.raw_dump(d, f, 5)) for f in G.FILES}
         tail_fails = run_tail(d, tail) if tail else []
+        if layspec and lay.get("decoys"):
+            tail_fails += decoys_untouched(lay)
     finally:
+        os.chdir(old_cwd)
+        G.clear_layout(d)
         shutil.rmtree(d, ignore_errors=True)
     return {"ops": ops, "steps": steps, "final": final, "fails": fails, "tail_fails": tail_fails}
 
@@ -612,6 +711,21 @@ def corpus():
     ]
 
 
+def layout_corpus():
+    """every link/copy kind across the two files plus append-create, run under every directory layout and addressing"""
+    A, B = "A", "B"
+    c = lambda f, p, k=1, mode="a": {"op": "create", "f": f, "p": p, "mode": mode, "k": k}  # noqa: E731
+    o = lambda kind, sf, sp, df, dp, **kw: dict({"op": kind, "sf": sf, "sp": sp, "df": df, "dp": dp}, **kw)  # noqa: E731
+    return [
+        ("external link, copies and moves between files in different directories",
+         [c(A, "/c2", 3), c(B, "/c10", 4), o("lns", A, "/c2", B, "/e"), o("cp", A, "/c2", B, "/c2"), o("mv", B, "/c10", A, "/c10"),
+          c(A, "/c2/y", 5), o("lns", A, "/c2/y", B, "/y", via="cli"), o("cp", B, "/c2", A, "/y", via="cli")]),
+        ("same-file links and a cross-file hard link refused, mixed addressing",
+         [c(A, "/", 6), o("ln", A, "/", A, "/c10", a1="rel", a2="rel"), o("lns", A, "/c10", A, "/y", a1="dot", a2="dot"),
+          o("ln", A, "/", B, "/c2", a1="abs", a2="dot"), o("mv", A, "/c10", A, "/c2", via="cli", a1="rel", a2="rel")]),
+    ]
+
+
 # ------------------------------------------------------------------ run
 def _pool():
     return mp.get_context("fork").Pool(4)
@@ -641,16 +755,22 @@ def run(ctx):
     os.makedirs(base, exist_ok=True)
     tasks = []
     hid = 0
-    for name, ops in corpus():
-        tasks.append((base, hid, 0, ops, None, "corpus"))
+    LAYS = [{"kind": k_, "addr": a_, "decoys": True} for k_ in ("siblings", "nested", "up", "side") for a_ in ("abs", "rel", "dot")]
+    for ci, (name, ops) in enumerate(corpus()):
+        tasks.append((base, hid, 0, ops, None, "corpus", None, dict(LAYS[ci % len(LAYS)], cli_obs=(ci % 3 == 0)) if ci % 2 else None))
         hid += 1
+    for name, ops in layout_corpus():
+        for lay in LAYS:
+            tasks.append((base, hid, 0, ops, None, "corpus-layout", None, dict(lay, cli_obs=True)))
+            hid += 1
     n_main, n_missing = (1500, 300) if thorough else (260, 50)
     for i_ in range(n_main):
         tail = {"p": rng.choice(PATHS), "k": rng.randrange(20)} if i_ % 3 == 0 else None
-        tasks.append((base, hid, rng.randrange(2 ** 31), None, rng.randint(2, 8 if thorough else 6), "existing", tail))
+        lay = dict(rng.choice(LAYS), cli_obs=(i_ % 4 == 1)) if i_ % 5 != 0 else None     # 4 of 5 histories away from the plain layout
+        tasks.append((base, hid, rng.randrange(2 ** 31), None, rng.randint(2, 8 if thorough else 6), "existing", tail, lay))
         hid += 1
     for _ in range(n_missing):
-        tasks.append((base, hid, rng.randrange(2 ** 31), None, rng.randint(2, 5), "missing"))
+        tasks.append((base, hid, rng.randrange(2 ** 31), None, rng.randint(2, 5), "missing", None, dict(rng.choice(LAYS))))
         hid += 1
     recs, mviews = evaluate(ctx, tasks, "all")
 
@@ -658,7 +778,7 @@ def run(ctx):
     kinds = {}
     for task, rec, mv in zip(tasks, recs, mviews):
         ops = rec["ops"]
-        case = {"ops": ops}
+        case = {"ops": ops, "layout": task[7] if len(task) > 7 else None}
         succ_copy = any(o["op"] in ("cp", "mv", "ln", "lns") and s["outcome"] == "Ok" for o, s in zip(ops, rec["steps"]))
         ctx.case(case, nontrivial=len(ops) >= 2 and succ_copy, kind=task[5])
         for o_, s in zip(ops, rec["steps"]):
@@ -673,14 +793,14 @@ def run(ctx):
                     case, diff = {"ops": ops2, "shrunk_from": len(ops)}, diff2
             ctx.disagree("history step observable: " + str(diff.get("what")), case, diff.get("impl"), diff.get("model"))
         for det, sig in rec.get("tail_fails", []):
-            ctx.fail({"ops": ops, "tail": task[6]}, det, sig)
+            ctx.fail({"ops": ops, "tail": task[6], "layout": task[7] if len(task) > 7 else None}, det, sig)
         seen = set()
         for det, sig in rec["fails"]:
             keyf = (sig, det["rule"])
             if keyf in seen:
                 continue
             seen.add(keyf)
-            ctx.fail({"ops": ops[:det["step"] + 1]}, det, sig)
+            ctx.fail({"ops": ops[:det["step"] + 1], "layout": task[7] if len(task) > 7 else None}, det, sig)
     ctx.extra["op_outcomes"] = dict(sorted(kinds.items()))
     ctx.extra["oracle_failure_signatures"] = signature_counts(recs)
     ctx.extra["histories"] = {"corpus": len(corpus()), "existing_sources": n_main, "arbitrary_sources": n_missing}
@@ -720,7 +840,7 @@ def replay(ctx, case):
     on its last step (earlier steps may carry known findings of their own)"""
     base = str(ctx.tmp / "replay")
     os.makedirs(base, exist_ok=True)
-    rec = run_history((base, 0, 0, case["ops"], None, "replay", case.get("tail")))
+    rec = run_history((base, 0, 0, case["ops"], None, "replay", case.get("tail"), case.get("layout")))
     last = len(case["ops"]) - 1
     bad = [f for f in rec["fails"] if f[0]["step"] == last] if not case.get("tail") else [f for f in rec["tail_fails"] if f[1] is None]
     for det, sig in bad:
